@@ -25,22 +25,34 @@ TOpen == IsOp("open") /\ Open(Ev.s)
 TCancel == IsOp("cancel") /\ Cancel(Ev.s)
 TSndBuf == IsOp("sndbuf") /\ SetSndBuf(Ev.s, Ev.n)
 TDf == IsOp("df") /\ SetDf(Ev.s, Ev.v)
-TSend == /\ IsEvent("Send") /\ Run /\ Ev.t = now
+\* a send_to with a writable-wait pending: one extra (silent) step aborts the wait first
+TSend == /\ IsEvent("Send") /\ Run /\ Ev.t = now /\ ~us[Ev.s].wop
          /\ SendTo(Ev.s, Ev.id, <<Ev.dst[1], Ev.dst[2]>>, Ev.size, Ev.ret, Ev.ec)
+TSupersede == IsEvent("SupersedeW") /\ Run /\ SupersedeWaitW(Ev.s)
+TStartWaitW == IsEvent("StartWaitW") /\ Run /\ StartWaitW(Ev.s)
+TWritable == IsEvent("Writable") /\ Run /\ ~Ev.inline /\ (IF us[Ev.s].wop THEN Writable(Ev.s) ELSE WritableLate(Ev.s))
+TWaitWAborted == /\ IsEvent("WaitWAborted") /\ Run /\ ~Ev.inline /\ WritableLate(Ev.s)
 TArrive == IsEvent("Arrive") /\ Run /\ Ev.t = now /\ Ev.whole /\ Arrive(Ev.id)
 TLost == IsEvent("Lost") /\ Run /\ Ev.finite /\ TailDrop(Ev.id)
 TStartRecv == IsEvent("StartRecv") /\ Run /\ StartRecv(Ev.s, Ev.style, Ev.cap)
-TReady == IsEvent("Ready") /\ Run /\ ~Ev.inline /\ Ready(Ev.s)
-TRecv == /\ IsEvent("Recv") /\ Run /\ Ev.t = now /\ ~Ev.inline /\ Ev.intact
+TReady == IsEvent("Ready") /\ Run /\ ~Ev.inline /\ (IF us[Ev.s].open THEN Ready(Ev.s) ELSE ReadyLate(Ev.s))
+TRecv == /\ IsEvent("Recv") /\ Run /\ Ev.t = now /\ ~Ev.inline /\ Ev.intact /\ us[Ev.s].open
          /\ us[Ev.s].rcvq # <<>>
          /\ LET id == Head(us[Ev.s].rcvq) IN
             /\ IF Ev.id = -1 THEN Ev.n = 1 /\ Ev.b0 = id % 256 ELSE Ev.id = id
-            /\ IF Len(Ev.from) = 0 THEN us[Ev.s].op.style = "recv"
+            /\ HasOp(Ev.s)
+            /\ IF Len(Ev.from) = 0 THEN CurOp(Ev.s).style = "recv"
                ELSE <<Ev.from[1], Ev.from[2]>> = dg[id].from
             /\ Recv(Ev.s, id, Ev.n, dg[id].from)
+TRecvLate == /\ IsEvent("Recv") /\ Run /\ Ev.t = now /\ ~Ev.inline /\ Ev.intact /\ ~us[Ev.s].open
+             /\ Ev.id >= 0 /\ us[Ev.s].grave # <<>>
+             /\ RecvLate(Ev.s, Ev.id, Ev.n, IF Len(Ev.from) = 2 THEN <<Ev.from[1], Ev.from[2]>>
+                                                                   ELSE Head(us[Ev.s].grave).from)
 TRecvAborted == /\ IsEvent("RecvAborted") /\ Run /\ ~Ev.inline /\ AbortRecv(Ev.s)
 TEnd == /\ IsEvent("End") /\ phase = "run" /\ phase' = "idle" /\ Quiescent /\ UNCHANGED uvars
-TNext == TCfg \/ TAdv \/ TBind \/ TClose \/ TOpen \/ TCancel \/ TSndBuf \/ TDf \/ TSend \/ TArrive \/ TLost
+TThrow == IsEvent("Throw") /\ Run /\ UNCHANGED uvars
+TEndThrown == IsEvent("EndThrown") /\ phase = "run" /\ phase' = "idle" /\ UNCHANGED uvars
+TNext == TSupersede \/ TStartWaitW \/ TWritable \/ TWaitWAborted \/ TRecvLate \/ TThrow \/ TEndThrown \/ TCfg \/ TAdv \/ TBind \/ TClose \/ TOpen \/ TCancel \/ TSndBuf \/ TDf \/ TSend \/ TArrive \/ TLost
          \/ TStartRecv \/ TReady \/ TRecv \/ TRecvAborted \/ TEnd
 TSpec == TInit /\ [][TNext]_tvars
 
